@@ -631,7 +631,10 @@ func (endp *Endpoint) wrapErr(msgId string, mangleUTF8 bool, command string, err
 	// If an explicit marker (exterrors.WithTemporary) overrides the class of
 	// the SMTP code, the reply has to follow it: it is what the sender of
 	// the error meant and what the queue uses to decide about retries.
-	if exterrors.IsTemporary(err) != (res.Code/100 == 4) {
+	// An error without any Temporary() method (for example, a partial delivery
+	// failure of target.remote) has no marker: keep the annotated class then.
+	marked := exterrors.IsTemporary(err) || !exterrors.IsTemporaryOrUnspec(err)
+	if marked && exterrors.IsTemporary(err) != (res.Code/100 == 4) {
 		if res.Code/100 == 4 {
 			res.Code = 554
 		} else {
